@@ -349,6 +349,8 @@ Proof.
       pose proof (drive_good _ IH c d e f g h pa 0 [] s) as G;
       destruct (drive a b c d e f g h pa 0 [] s) as [[[[] ?] ?] ?] end; auto with gd.
   - (* CollectExactly *)
+    match goal with |- good (match ?k with 0 => match ?x with Some e0 => _ | None => ?B end | S _ => _ end) =>
+      assert (HB : good B); [|destruct k; [destruct x; [apply IH|exact HB]|exact HB]] end.
     match goal with |- context [drive ?a ?b ?c ?d ?e ?f ?g ?h ?pa 0 [] s] =>
       pose proof (drive_good _ IH c d e f g h pa 0 [] s) as G;
       destruct (drive a b c d e f g h pa 0 [] s) as [[[[] ?] fl] ?] end; auto with gd;
